@@ -4,6 +4,7 @@ import (
 	"bytes"
 	"encoding/json"
 	"fmt"
+	"os"
 	"strconv"
 	"strings"
 	"time"
@@ -29,9 +30,38 @@ func NDJSON(recs []interface{}) []byte {
 	enc := json.NewEncoder(&b)
 	enc.SetEscapeHTML(false)
 	for _, r := range recs {
-		enc.Encode(r)
+		enc.Encode(strip(r))
 	}
 	return b.Bytes()
+}
+
+// DebugKeys are record fields kept for humans (replay artefacts) and not sent to TLC.
+var DebugKeys = map[string]bool{"ps": true, "ns": true, "pats": true, "grps": true, "groups": true, "local": true, "panicv": true, "ms": true, "ids": true, "dbg": true}
+
+func strip(v interface{}) interface{} {
+	switch x := v.(type) {
+	case map[string]interface{}:
+		out := make(map[string]interface{}, len(x))
+		for k, e := range x {
+			if !DebugKeys[k] {
+				out[k] = strip(e)
+			}
+		}
+		return out
+	case []map[string]interface{}:
+		out := make([]interface{}, len(x))
+		for i, e := range x {
+			out[i] = strip(e)
+		}
+		return out
+	case []interface{}:
+		out := make([]interface{}, len(x))
+		for i, e := range x {
+			out[i] = strip(e)
+		}
+		return out
+	}
+	return v
 }
 
 // AllStrings enumerates every string over alphabet of length 0..maxLen.
@@ -86,6 +116,9 @@ func CheckRecords(c *Ctx, module, cfg string, recs []interface{}, extra map[stri
 		return nil
 	}
 	files := map[string][]byte{"trace.ndjson": NDJSON(recs)}
+	if d := os.Getenv("VERIF_KEEP_TRACE"); d != "" {
+		os.WriteFile(d+"/"+module+".trace.ndjson", files["trace.ndjson"], 0o644)
+	}
 	for k, v := range extra {
 		files[k] = v
 	}
